@@ -352,8 +352,24 @@ def traversal_idiom(index, ctx):
                 ok_sites += bool(sub)
             if sites and ok_sites == len(sites):
                 roots_ok, how_roots = True, f"every caller subtracts the excluded nodes from the roots before the call ({len(sites)} call site(s))"
-    ctx.require(roots_ok, "R4", f"{F.short}: traversal starts from the roots minus the excluded nodes", how_roots,
-                f"worklist initialisation `{norm_text(init[0]) if init else '?'}` does not subtract the excluded nodes from the roots", F.loc(init[0]) if init else F.loc())
+    _roots_msg = (how_roots, f"worklist initialisation `{norm_text(init[0]) if init else '?'}` does not subtract the excluded nodes from the roots", F.loc(init[0]) if init else F.loc())
+    # ---- "closed when popped": right after the pop, `if <cursor> in S: continue` and `S.add(<cursor>)` — a node may be scheduled several times, only its first pop is
+    #      processed; excluded roots are dropped there too, so neither the roots nor the pushes need a membership test of their own
+    pop_filter = None
+    for w_ in [x for x in ast.walk(fn) if isinstance(x, ast.While)]:
+        body_ = [x for x in w_.body if not (isinstance(x, ast.Expr) and isinstance(x.value, ast.Constant))]
+        for i_, st_ in enumerate(body_[:-2]):
+            if isinstance(st_, ast.Assign) and isinstance(st_.targets[0], ast.Name) and st_.targets[0].id == cursor:
+                t1, t2 = body_[i_ + 1], body_[i_ + 2]
+                if isinstance(t1, ast.If) and not t1.orelse and len(t1.body) == 1 and isinstance(t1.body[0], ast.Continue) and isinstance(t1.test, ast.Compare) and len(t1.test.ops) == 1 \
+                        and isinstance(t1.test.ops[0], ast.In) and isinstance(t1.test.left, ast.Name) and t1.test.left.id == cursor and base_name(t1.test.comparators[0]) \
+                        and isinstance(t2, ast.Expr) and isinstance(t2.value, ast.Call) and isinstance(t2.value.func, ast.Attribute) and t2.value.func.attr == "add" \
+                        and base_name(t2.value.func.value) == base_name(t1.test.comparators[0]) and t2.value.args and isinstance(t2.value.args[0], ast.Name) and t2.value.args[0].id == cursor:
+                    pop_filter = base_name(t1.test.comparators[0])
+    if pop_filter is not None and not roots_ok:
+        ctx.ok("R4", f"{F.short}: traversal starts from the roots minus the excluded nodes", f"every popped node found in `{pop_filter}` is dropped (excluded roots included)", F.loc())
+    else:
+        ctx.require(roots_ok, "R4", f"{F.short}: traversal starts from the roots minus the excluded nodes", _roots_msg[0], _roots_msg[1], _roots_msg[2])
     # adoptions: (cfg node, what is adopted, conditions known, how, is_collection)
     adoptions = []
     root_pushes = []
@@ -384,6 +400,7 @@ def traversal_idiom(index, ctx):
             adoptions.append((n, a.value.id, succ_vars[a.value.id] | conds_about(guards, a.value.id), "made the current node", False, guards))
     ctx.floor("successor adoption sites", len(adoptions), 1)
     visited_sets = set()
+    excl_sets = set()  # sets the adoption guard also excludes, without marking into them (the excluded nodes kept apart from the visited ones)
     for n, what, conds, how, is_coll, guards in adoptions:
         not_none = ("notnone",) in conds
         seen_sets = {c[1] for c in conds if c[0] == "notin"}
@@ -399,7 +416,11 @@ def traversal_idiom(index, ctx):
                 if isinstance(x, ast.AugAssign) and isinstance(x.op, ast.BitOr) and is_coll and norm_text(unwrap(x.value)) == norm_text(unwrap(ast.parse(what, mode="eval").body)):
                     marked_in.add(base_name(x.target))
         ok_sets = seen_sets & marked_in
+        if pop_filter is not None and not ok_sets:
+            ok_sets = {pop_filter}  # duplicates and excluded nodes are dropped when popped
+            marked_in = marked_in | {pop_filter}
         visited_sets |= ok_sets
+        excl_sets |= {s_ for s_ in seen_sets if s_ not in marked_in}
         wrong = [norm_text(c) for c, tr in guards if isinstance(c, ast.Compare) and isinstance(c.ops[0], (ast.In, ast.NotIn)) and not (isinstance(c.left, ast.Name) and c.left.id == what)]
         if not marked_in and not is_coll and not any(isinstance(x, ast.Call) and isinstance(x.func, ast.Attribute) and x.func.attr in ("add", "update") for x in ast.walk(fn)
                                                       if isinstance(x, ast.Call) and x.args and names_read(x.args[0]) & (set(succ_vars) | set(colls))):
@@ -416,15 +437,22 @@ def traversal_idiom(index, ctx):
         from ..astutil import inline_locals
 
         ok = vs in params_ or any(names_read(x.value) & params_ or names_read(inline_locals(x.value, fn, keep={vs})) & params_ for x in vinit)
+        if not ok:
+            # the excluded nodes may be kept in a set of their own that the same guard tests: `child in excluded or child in visited`
+            for es in excl_sets:
+                einit = [x for x in ast.walk(fn) if isinstance(x, ast.Assign) and isinstance(x.targets[0], ast.Name) and x.targets[0].id == es]
+                if es in params_ and not einit or any(names_read(x.value) & params_ for x in einit):
+                    ok = True
         ctx.require(ok, "R4", f"{F.short}: visited set `{vs}` starts from the excluded nodes", "initialised from the parameter", f"`{vs}` is not initialised from the excluded nodes", F.loc(vinit[0]) if vinit else F.loc())
     # collection depends on the node kind only
     coll = [n for n in cfg.stmt_nodes() if n.kind == "stmt" and isinstance(n.ast, ast.Expr) and isinstance(n.ast.value, ast.Call) and isinstance(n.ast.value.func, ast.Attribute)
             and n.ast.value.func.attr == "add" and n.ast.value.args and ((isinstance(n.ast.value.args[0], ast.Name) and n.ast.value.args[0].id == cursor) or
                                                                           (isinstance(n.ast.value.args[0], ast.Attribute) and base_name(n.ast.value.args[0]) == cursor))
-            and base_name(n.ast.value.func.value) != worklist]
+            and base_name(n.ast.value.func.value) != worklist and base_name(n.ast.value.func.value) != pop_filter]
     for n in coll:
         tests = [t for t, _ in cfg.guards_of(n) if t.kind == "test" and isinstance(t.ast, ast.If) and cursor in names_read(t.ast.test)
-                 and not (t.ast.body and all(isinstance(b_, ast.Raise) for b_ in t.ast.body) and not t.ast.orelse)]  # (earlier raise-guards on the arguments do not count)
+                 and not (t.ast.body and all(isinstance(b_, ast.Raise) for b_ in t.ast.body) and not t.ast.orelse)  # (earlier raise-guards on the arguments do not count)
+                 and not (pop_filter is not None and isinstance(t.ast.test, ast.Compare) and isinstance(t.ast.test.ops[0], ast.In) and base_name(t.ast.test.comparators[0]) == pop_filter)]
         def kind_test(e):
             """The expression (or the one-line predicate it calls on the cursor) looks at the node's class name only."""
             if "AccumulateGrad" in norm_text(e) and cursor in names_read(e):
